@@ -100,6 +100,8 @@ def compare(prog, it, mt):
             return "norm"
         if st.startswith("state-"):
             n = st[6:].lower()
+            if n in ("restart", "error"):
+                return "state100" if n == "restart" else "state101"
             return "state%d" % G.STATES.index(n) if n in G.STATES else "bare"
         return st
     if mt["status"] in ("crash", "fuel"):
@@ -149,6 +151,10 @@ def stmt_exprs(s):
         return [s[1]]
     if k == "rawstmt":
         return [("raw", "", s[2])]
+    if k == "add":
+        return [s[2]]
+    if k == "error":
+        return [e for e in s[1:3] if e is not None]
     if k == "switch":
         # the control expression, and a case written `case ~ "re"` is a match of this frame
         return [s[1]] + [("match", False, ("lit", None, ""), t[1]) for t, _, _ in s[3] if t is not None and t[0] == "re"]
@@ -181,7 +187,8 @@ def oracle(prog, it, linemap):
         exprs = stmt_exprs(s)
         calls = s[0] == "call" or any(G.expr_has(e, ("call",)) for e in exprs)
         matches = any(G.expr_has(e, ("match",)) for e in exprs)
-        target = prog.name_text(s[1]) if s[0] in ("set", "unset") else ("var.v%d" % s[1] if s[0] == "decl" else None)
+        target = prog.name_text(s[1]) if s[0] in ("set", "unset", "add") else ("var.v%d" % s[1] if s[0] == "decl" else None)
+        implicit = ("@obj.status", "@obj.response", "obj.response") if s[0] == "error" else ()
         if s[0] == "rawstmt":
             target = s[2].get("target")
         derived = derived_of(target, pool)
@@ -195,7 +202,7 @@ def oracle(prog, it, linemap):
             elif U.show(b["locals"][n]) != U.show(v):
                 bad.append(("%s changed %s: %s -> %s" % (what, n, U.show(v), U.show(b["locals"][n])), a["line"]))
         for n, x, y in zip(pool, a["pool"], b["pool"]):
-            if n == target or n in derived or U.show(x) == U.show(y):
+            if n == target or n in derived or n in implicit or U.show(x) == U.show(y):
                 continue
             if n.startswith("re.group."):
                 if matches:
